@@ -9,6 +9,7 @@ use rayon::prelude::*;
 use serde_json::{json, Value};
 
 mod corecmd;
+mod importscmd;
 mod lexcmd;
 mod project;
 mod session;
@@ -93,6 +94,7 @@ fn main() {
         "transpile" => write_records(&par_map(read_records(), transpile::transpile_record)),
         "project" => write_records(&par_map(read_records(), project::project_record)),
         "session" => write_records(&par_map(read_records(), session::session_record)),
+        "imports-replay" => write_records(&par_map(read_records(), importscmd::replay_record)),
         "version" => println!("{}", json!({"harness": 1})),
         _ => {
             eprintln!("usage: vh <lex|...>  (ndjson on stdin)");
